@@ -336,6 +336,7 @@ def main(argv):
         oracle = json.load(open(os.path.join(gen_dir, "oracle.json")))
         ops_all = parse_ops(os.path.join(gen_dir, "ops.txt"))
     impl_s = time.time() - tstart
+    records = {}
     if os.path.exists(corpus):
         cdir = os.path.join(work, "corpus")
         rc, out = run([hbin, "replay", a.tier, str(seed), cdir, corpus], env=env, timeout=3600)
@@ -353,7 +354,6 @@ def main(argv):
                 if w is not None and w.split(" ")[0] != o["impl"].split(" ")[0]:
                     oracle["failures"].append({"class": prop + ".corpus", "what": "corpus case regressed: expected %s, implementation now %s" % (w.split(" ")[0], o["impl"].split(" ")[0]), "lines": [o["id"]], "suite": o["suite"]})
             ops_all = cops + ops_all
-    records = {}
     rj = os.path.join(gen_dir, "ops.jsonl")
     if os.path.exists(rj):
         for l in open(rj):
@@ -363,6 +363,29 @@ def main(argv):
                     records[str(r["id"])] = r
                 except Exception:
                     pass
+    cl_corpus = os.path.join(VERIF, "corpus", prop + ".jsonl")
+    if engine == "cl" and os.path.exists(cl_corpus):
+        cdir = os.path.join(work, "corpus")
+        rc, out = run([hbin, "replay", a.tier, str(seed), cdir, cl_corpus], env=env, timeout=3600)
+        if rc == 0:
+            cops = parse_ops(os.path.join(cdir, "ops.txt"))
+            want = {}
+            for l in open(cl_corpus):
+                if l.strip():
+                    r = json.loads(l)
+                    want[str(r["id"])] = r.get("expect")
+            for l in open(os.path.join(cdir, "ops.jsonl")):
+                if l.strip():
+                    r = json.loads(l)
+                    records["c" + str(r["id"])] = r
+            for o in cops:
+                w = want.get(o["id"])
+                got = o["impl"] if len(o["impl"]) < 24 else o["impl"].split(" ")[0]
+                o["id"] = "c" + o["id"]
+                o["lhs"] = "c" + o["lhs"]
+                if w is not None and w != got:
+                    oracle["failures"].append({"class": prop + ".corpus", "what": "corpus case regressed: expected %s, implementation now %s" % (w, got), "lines": [o["id"]], "suite": o["suite"]})
+            ops_all = cops + ops_all
     # 5. model runs + diff
     disagreements = []
     model = {}
